@@ -645,6 +645,21 @@ pub fn run<P: Property>(p: &P, tier: Tier, seed: u64) -> RunResult {
     for (k, v) in extra.notes {
         coverage[k] = v;
     }
+    // statistics of the libFuzzer campaigns check.sh ran before this process (thorough tier)
+    let mut fuzz_execs = 0u64;
+    if let Ok(path) = std::env::var("VERIF_FUZZ_STATS") {
+        if let Ok(txt) = std::fs::read_to_string(&path) {
+            if let Ok(v) = serde_json::from_str::<Value>(&txt) {
+                if let Some(arr) = v.as_array() {
+                    for c in arr {
+                        fuzz_execs += c["executions"].as_u64().unwrap_or(0);
+                    }
+                }
+                coverage["fuzz"] = v;
+            }
+        }
+    }
+    coverage["evaluations"] = json!(evaluations + fuzz_execs);
     let evidence = json!({
         "property_id": id,
         "tier": tier.name(),
